@@ -11,9 +11,9 @@ LEVEL_TEXT = "Deductive proof per clause of the statement where the function is 
 LEVEL_NOTE = "Trusts A-TOK, A-STR (lower/strip uninterpreted), the pyvc encoding, z3/cvc5."
 TECHNIQUE = "contract-based deductive verification (VCs from the ast of the real functions, z3/cvc5) + bounded defect catalogue sweep"
 from contracts import checks as CK
-UNITS = [CK.unit_is_unique_init(), IF.unit_add_check_row(), IF.unit_add_field_format_row(), IF.unit_cid_read(), IF.unit_validated_field_name(), IF.unit_add_data_format_row(), IF.unit_create_class_and_check_row(), IF.unit_c09_catalogue()]
+UNITS = [CK.unit_is_unique_init(), IF.unit_add_check_row(), IF.unit_add_check(), IF.unit_add_field_format_row(), IF.unit_cid_read(), IF.unit_validated_field_name(), IF.unit_add_data_format_row(), IF.unit_create_class_and_check_row(), IF.unit_c09_catalogue()]
 from contracts import fields as FL
-UNITS += [CK.unit_distinct_count_init(), CK.unit_audit_first_token(), FL.unit_field_name_index()]
+UNITS += [CK.unit_distinct_count_init(), CK.unit_audit_first_token(), CK.unit_audit_count_expression(), FL.unit_field_name_index()]
 UNITS += [IF.unit_add_field_format()]
 from contracts import tools as TL
 UNITS += [TL.unit_validated_python_name(), TL.unit_generated_tokens()]
